@@ -554,13 +554,13 @@ class C14(Check):
         "'each query receives its own reply' follows from mutual exclusion plus C12's sequential result",
     ]
     bounds = {"quick": {"scenarios": ["threads2", "start_race_min", "grandchild_min", "start_race"], "slack": 0}, "thorough": {"scenarios": list(SCENARIOS), "slack": 2}}
-    max_paths = 10
+    max_paths = 64
 
     def budget(self, tier):
         return (280, 250000) if tier == "quick" else (3000, 2400000)
 
     def shapes(self, tier):
-        out = [{"part": "skeleton"}]
+        out = [{"part": "skeleton"}, {"part": "discovery"}]
         for sc in self.bounds[tier]["scenarios"]:
             for sm in ("fork", "spawn"):
                 if len(SCENARIOS[sc][0]) == 1 and sm == "spawn":
@@ -588,6 +588,8 @@ class C14(Check):
             eng.claim("skeleton: functions querying the terminal several times hold the lock around all of it", all(n >= 1 for n in sk["inline"].values()))
             eng.observe("skeleton", sorted([k, int(v)] for k, v in sk.items() if not isinstance(v, (dict, tuple))))
             return
+        if shape["part"] == "discovery":
+            return self.discovery(eng)
         procs, progs = build_programs(sk, shape["scenario"])
         total = sum(len(ops) for _, ops in progs.values())
         K = total + shape["slack"]
@@ -618,6 +620,66 @@ class C14(Check):
             m = solver.model()
             model = {f"sched_{k}": m.eval(v, model_completion=True).as_long() for k, v in enumerate(info["sched"])}
         eng.record_claim(name, str(r), time.time() - t, model)
+
+    # --------------------------------------------------------------- discovery
+    def discovery(self, eng):
+        """The module-level code that finds the active terminal and installs the Process hooks, executed on a copy of the
+        module for every way a terminal can be found (solver-forked: which standard streams are terminals, whether
+        /dev/tty can be opened): the hooks must be installed exactly when an active terminal was found."""
+        import types
+        import warnings
+
+        tree = ast.parse(self.src)
+        disc = [n for n in tree.body if isinstance(n, ast.If) and isinstance(n.test, ast.Name) and n.test.id == "OS_IS_UNIX"
+                and any(isinstance(x, ast.For) for x in ast.walk(n))]
+        if len(disc) != 1:
+            raise SkeletonError("terminal discovery block not recognised")
+        rest = ast.Module(body=[n for n in tree.body if n is not disc[0]], type_ignores=[])
+        repo = os.environ.get("TERM_IMAGE_REPO", "/repo")
+        path = os.path.join(repo, "src", "term_image", "utils.py")
+        g = {"__name__": "term_image._utils_discovery", "__package__": "term_image", "__file__": path, "__builtins__": __builtins__}
+        with warnings.catch_warnings():
+            warnings.simplefilter("ignore")
+            exec(compile(rest, path, "exec"), g)
+        is_tty = {k: bool(eng.bool(f"std{k}_is_a_terminal")) for k in ("out", "in", "err")}
+        dev_tty = bool(eng.bool("dev_tty_can_be_opened"))
+        fds = {"out": 1, "in": 0, "err": 2}
+
+        def ttyname(fd):
+            for k, v in fds.items():
+                if v == fd and is_tty[k]:
+                    return f"/dev/pts/{v}"
+            raise OSError(25, "Inappropriate ioctl for device")
+
+        def open_(p, flags, *a):
+            if p == "/dev/tty" and not dev_tty:
+                raise OSError(6, "No such device or address")
+            return 70
+
+        fake_os = types.SimpleNamespace(**{k: getattr(os, k) for k in dir(os) if not k.startswith("__")})
+        fake_os.ttyname, fake_os.open = ttyname, open_
+        fake_sys = types.SimpleNamespace(**{f"__std{k}__": types.SimpleNamespace(fileno=lambda v=v: v) for k, v in fds.items()})
+
+        class FakeProcess:
+            def start(self):
+                pass
+
+            def run(self):
+                pass
+
+        orig_start, orig_run = FakeProcess.start, FakeProcess.run
+        g.update(os=fake_os, sys=fake_sys, Process=FakeProcess, OS_IS_UNIX=True)
+        with warnings.catch_warnings():
+            warnings.simplefilter("ignore")
+            exec(compile(ast.Module(body=[disc[0]], type_ignores=[]), path, "exec"), g)
+        found = g["_tty_fd"] != -1
+        hooked = FakeProcess.start is not orig_start and FakeProcess.run is not orig_run
+        untouched = FakeProcess.start is orig_start and FakeProcess.run is orig_run
+        eng.reachable()
+        eng.claim("discovery: an active terminal is found iff a standard stream is a terminal or /dev/tty can be opened", found == (any(is_tty.values()) or dev_tty))
+        eng.claim("discovery: the Process.start / Process.run hooks are installed exactly when an active terminal was found - however it was found",
+                  hooked if found else untouched)
+        eng.observe("found", found)
 
     # ------------------------------------------------------------------ replay
     def replay(self, eng, shape, K):
